@@ -211,6 +211,20 @@ fn json_limit(g: &mut G) {
 		g.push("json", "nesting-limit-json", format!("1 {}", "[".repeat(d)).into_bytes(), "");
 		g.push("json", "nesting-limit-json", format!("[\"{}\"]", "[".repeat(d)).into_bytes(), "");
 	}
+	// the limit is on the DEPTH: many siblings / closed containers at depth 1-2 must stay accepted
+	// (a counter that is not decremented on leaving a container would turn them into errors)
+	for n in [1023usize, 1024, 1025, 1100] {
+		let sib_arr = format!("[{}]", vec!["[]"; n].join(","));
+		let sib_obj = format!("{{{}}}", (0..n).map(|i| format!("\"k{i}\":{{}}")).collect::<Vec<_>>().join(","));
+		let sib_mixed = format!("[{}]", vec!["[[]]", "{\"a\":[]}", "[{}]"].iter().cycle().take(n).cloned().collect::<Vec<_>>().join(","));
+		for doc in [sib_arr, sib_obj, sib_mixed] {
+			g.push("json", "limit-vs-count", doc.clone().into_bytes(), "");
+			g.push("tilejson", "limit-vs-count", format!("{{\"x\":{doc}}}").into_bytes(), "");
+		}
+		// a deep-but-legal chain after many closed siblings
+		let doc = format!("[{},{}{}]", vec!["[]"; n].join(","), "[".repeat(1000), "]".repeat(1000));
+		g.push("json", "limit-vs-count", doc.into_bytes(), "");
+	}
 	for d in [20_000usize, 100_000] {
 		g.push("json", "nesting-deep", format!("{}{}", "[".repeat(d), "]".repeat(d)).into_bytes(), "");
 		g.push("json", "nesting-deep", format!("{}1{}", "{\"a\":".repeat(d), "}".repeat(d)).into_bytes(), "");
@@ -1206,6 +1220,16 @@ fn vpl_limit(g: &mut G, thorough: bool) {
 		// the crash probe (child process): far beyond any stack
 		let deep = if thorough { 20000 } else { 5000 };
 		g.push("vpllimit", "nesting-deep", nest(p, deep), "");
+	}
+	// the limit is on the depth, not on the number of brackets: many sibling lists at depth 1-2
+	for n in [64usize, 65, 66, 200] {
+		let sib = format!("a [{}]", vec!["a"; n].join(","));
+		let sib2 = format!("a [{}]", vec!["a[a]"; n].join(","));
+		let arrs = format!("a {}", (0..n).map(|i| format!("p{i}=[1,2]")).collect::<Vec<_>>().join(" "));
+		for t in [sib, sib2, arrs] {
+			g.push("vpl", "limit-vs-count", t.clone().into_bytes(), "");
+			g.push("build", "limit-vs-count", t.into_bytes(), "");
+		}
 	}
 	// the tricky text inside the nesting as well
 	for p in prefixes.iter().skip(1) {
